@@ -3,7 +3,7 @@
 (* C12 clauses evaluated by TLC on what the REAL generators produced.         *)
 (*                                                                            *)
 (* Input (ndjson, IOEnv.TRACE_FILE), one object per line:                     *)
-(*   kind "graph": n, cat, parent = a graph TLC enumerated; accepted = the    *)
+(*   kind "graph": n, cat, parent, wire (node -> battery slots) = a graph TLC enumerated; accepted = the    *)
 (*        real _MicrogridComponentGraph constructor (which validates) took it;*)
 (*        calls = one record per real generator call, in the order of         *)
 (*        NamesSeq:  name, ok (FALSE: generate() raised, err = exception type),*)
@@ -54,21 +54,27 @@ KnownDev(Fcons) ==
     IF Dev_MixedMeterAsConsumerWithoutGridMeter(Fcons)
     THEN <<"Dev_MixedMeterAsConsumerWithoutGridMeter">> ELSE NoDev
 \* KF-C12-3: the cause holds on this graph and the real CHP formula is exactly the transcribed one
+\* KF-C12-4: the cause holds on this graph and the real battery formula (with its fallbacks) is
+\* exactly the transcribed one
+KnownBatDev(Fbat) ==
+    IF Dev_SharedBatteryFallback(Fbat) THEN <<"Dev_SharedBatteryFallback">> ELSE NoDev
 KnownChpDev(Fchp) ==
     IF Dev_GridMeterAsChpMeter(Fchp) THEN <<"Dev_GridMeterAsChpMeter">> ELSE NoDev
 
 \* clauses on one real call c, S = what the transcription generated for the same formula
 CallChecks(c, S) ==
     LET F == RealF(c)
-        shown == [name |-> c.name, formula |-> c.s, coef |-> c.coef, cat |-> cat, parent |-> parent]
+        shown == [name |-> c.name, formula |-> c.s, coef |-> c.coef, cat |-> cat, parent |-> parent, wire |-> Tr.wire]
     IN
-    /\ Check(c.shape = "ok", "C12.FormulaShape", <<c.shape, shown>>, NoDev)
+    /\ Check(c.shape = "ok", "C12.FormulaShape", <<c.shape, shown>>,
+             IF c.name = "bat" THEN KnownBatDev(F) ELSE NoDev)
     /\ Check(GeneratedOK(c.name, F) /\ (F.ok \/ c.err = "FormulaGenerationError"),
              "C12.Generated", <<c.err, shown>>, NoDev)
     /\ Check(TotalOK(c.name, F), TotalClause(c.name),
              <<"form", Form(F.coef), "true total", TrueTotal(c.name), shown>>,
              IF c.name = "cons" THEN KnownDev(F) ELSE IF c.name = "chp" THEN KnownChpDev(F) ELSE NoDev)
-    /\ Check(FallbackOK(F), "C12.FallbackEqualsPrimary", <<"fallbacks", c.fb, shown>>, NoDev)
+    /\ Check(FallbackOK(F), "C12.FallbackEqualsPrimary", <<"fallbacks", c.fb, shown>>,
+             IF c.name = "bat" THEN KnownBatDev(F) ELSE NoDev)
     \* observation (no clause): a fallback stands in for a term that carries unmetered load
     /\ Check(~FallbackOmitsLoad(F), "EXT.FallbackOmitsUnmeteredLoad", <<"fallbacks", c.fb, shown>>, NoDev)
     /\ Check(F = S, "drift.Transcription", <<"transcription", S.ok, S.coef, S.fb, "real", c.ok, c.fb, shown>>, NoDev)
@@ -92,6 +98,9 @@ Exercised ==
           chp_without_dedicated_meter |-> ChpRefusal,
           chp_with_dedicated_meter |-> ~ChpRefusal /\ ChpSet # {},
           load |-> \E m \in Nodes : HasLoad(m),
+          shared_battery |-> SharedBattery,
+          multi_battery_inverter |-> MultiBattery,
+          shared_battery_fallback |-> CauseSharedBatteryFallback,
           nested |-> \E m \in Nodes : cat[m] = "METER" /\ parent[m] # 0 /\ cat[parent[m]] = "METER",
           dedicated_meter |-> \E m \in Nodes : Dedicated(m),
           grid_meter_over_one_device_type |-> \E m \in Nodes : IsTheGridMeter(m) /\ MeterFallback(m) # {},
@@ -106,12 +115,12 @@ Done == Say([tid |-> Tr.id, done |-> TRUE, ex |-> Exercised'])
 TInit ==
     /\ tid \in 1..Len(TraceLog)
     /\ l = 0
-    /\ n = Tr.n /\ cat = Tr.cat /\ parent = <<>> /\ pc = "topology" /\ gen = NoGen
+    /\ n = Tr.n /\ cat = Tr.cat /\ parent = <<>> /\ wire = <<>> /\ pc = "topology" /\ gen = NoGen
 
 TChoose ==
     /\ l = 0 /\ Tr.kind = "graph"
     /\ parent' = Tr.parent
-    /\ ChooseTopology
+    /\ LET w == [i \in 1..Tr.n |-> ToSet(Tr.wire[i])] IN WiringOK(w) /\ ChooseTopologyW(w)
     /\ Check(Tr.accepted, "drift.ValidationAgrees", <<"real constructor rejected", Tr.cat, Tr.parent>>, NoDev)
     /\ l' = 1 /\ UNCHANGED tid
     /\ (Len(Tr.calls) = 0 => Done)
